@@ -219,5 +219,13 @@ def main_e2(tier, cov_pipe, n_pipe):
 
 
 def replay(path):
+    import json
+    doc = json.load(open(path))
+    if doc.get("engine") == "E1-closed-outputs":
+        v = common.Verdict(PID)
+        closed_outputs(v)
+        common.cleanup_scratch()
+        print("VIOLATION-REPLAYED" if v.count else "replay: no longer fails", v.count)
+        return 1 if v.count else 0
     sc = {s["name"]: s for s, _ in scenarios("thorough")}
     return e2prop.replay(PID, sc, oracle, path)
